@@ -21,7 +21,7 @@ REQUIRED_MONITORS = ('shadow_comparison', 'rigid_operation')
 REQUIRED_CLASSES = ('obj:AtomGro', 'obj:Residue', 'obj:Molecule', 'obj:Molecule-multi-residue', 'src:system', 'src:alignment',
                     'src:shipped', 'op:copy', 'op:deep_copy', 'op:move', 'op:move_to', 'op:rotate', 'op:set-positions',
                     'op:set-velocities', 'op:set-velocities-none', 'op:set-ids', 'op:set-resids', 'op:view-index',
-                    'op:view-iterate', 'op:shared-array', 'op:rename-deep-copy', 'op:atoms-property')
+                    'op:view-iterate', 'op:view-inplace', 'op:shared-array', 'op:rename-deep-copy', 'op:atoms-property')
 RULE = ('operation histories (<= 40 operations over <= 8 live objects) drawn from {copy, deep_copy, move, move_to, rotate, '
         'set positions/velocities(None)/atom numbers/residue numbers, view assignment by index and by iteration, the same '
         'ndarray handed to two setters, rename on deep copies, mutate what the atoms property returned}. Non-trivial: the '
@@ -199,7 +199,7 @@ def run_case(ctx, case):
     nontrivial = False
     OPS = ['copy', 'deep_copy', 'move', 'move_to', 'rotate', 'set-positions', 'set-velocities', 'set-velocities-none',
            'set-ids', 'set-resids', 'view-index', 'view-iterate', 'shared-array', 'rename-deep-copy', 'atoms-property',
-           'new-molecule-from-residues']
+           'new-molecule-from-residues', 'view-inplace']
     for step in range(nops):
         t = int(rng.integers(0, len(objs)))
         e = objs[t]
@@ -299,6 +299,18 @@ def run_case(ctx, case):
                     aid = int(rng.integers(1, 90000))
                     obj[j].atomid = aid
                     sh['ids'][j] = aid
+            elif op == 'view-inplace':
+                # read-modify-write through a view (atom.position += v): exposes coordinate arrays
+                # shared between a copy and its source.  Not applied while the object holds an
+                # array that the history itself handed to a second object.
+                if k == 'AtomGro' or e.get('holds_shared_array'):
+                    continue
+                j = int(rng.integers(0, n))
+                v = rng.normal(size=3)
+                view = obj[j]
+                view.position += v
+                sh['pos'][j] = sh['pos'][j] + v
+                tol = 1e-12
             elif op == 'view-iterate':
                 if k == 'AtomGro':
                     continue
@@ -317,6 +329,7 @@ def run_case(ctx, case):
                 o['obj'].atoms_positions = arr
                 sh['pos'] = arr.copy()
                 o['shadow']['pos'] = arr.copy()
+                e['holds_shared_array'] = o['holds_shared_array'] = True
             elif op == 'rename-deep-copy':
                 if k != 'Molecule' or not e['deep'] or len(objs) >= 8:
                     continue
@@ -343,6 +356,8 @@ def run_case(ctx, case):
         except Exception as exc:  # noqa
             ctx.violation(f'operation-raises:{op}:{type(exc).__name__}', f'{op} on {e["label"]} ({k}): {exc}', witness={'history': history})
             break
+        if op in ('move', 'move_to', 'rotate', 'set-positions'):
+            e['holds_shared_array'] = False
         history.append((op, t))
         kinds.append(op)
         ctx.hit('op:' + op)
